@@ -250,6 +250,8 @@ def classify(w):
     r1, r2 = w.get("r1"), w.get("r2")
     if not isinstance(r1, list) or not isinstance(r2, list):
         return None
+    if w.get("path"):
+        return None  # special construction paths (incremental build) have no recorded mechanism
     a, b = norm(r1), norm(r2)
     if kind == "instance-cache-returns-other-query":
         # the weak instance cache is keyed by constructor arguments, i.e. by child restrictions: it is enough that
